@@ -16,6 +16,42 @@ import (
 const maxInlineDepth = 4
 
 func (r *FnRun) execCall(st *State, x *ssa.Call) *State {
+	if r.depth == 0 && r.c != nil {
+		// `before Callee#k apply/assert`: evaluated in the state just before the call (its preconditions may need it)
+		cname := calleeShort(&x.Call)
+		occ := r.calleeCount[cname] + 1
+		for _, ma := range r.c.Asserts {
+			if !ma.Before || ma.Callee != cname || ma.N != occ {
+				continue
+			}
+			env := r.rootEnvFor(st)
+			env.preferNames = true
+			det := fmt.Sprintf("before:%s.%d", ma.Callee, ma.N)
+			if ma.Apply != nil {
+				p, q := env.applyLemma(ma.Apply, true)
+				if ma.When != nil {
+					c := env.EvalBool(ma.When)
+					if p != nil {
+						p = r.tb().Implies(c, p)
+					}
+					q = r.tb().Implies(c, q)
+				}
+				if p != nil {
+					r.oblige(st, "apply", det+":"+ma.Apply.Name, p, x.Pos(), "premise of "+ma.Cl.Text, nil)
+				}
+				r.assume(st, q)
+				continue
+			}
+			if !r.root.wantClause(ma.Cl) {
+				continue
+			}
+			g := env.EvalBool(ma.Cl.E)
+			r.oblige(st, "assert", det, g, x.Pos(), "intermediate assertion: "+ma.Cl.Text, ma.Cl.Tags)
+			if !ma.CheckOnly {
+				r.assume(st, g)
+			}
+		}
+	}
 	nst := r.execCallCommon(st, &x.Call, x, x.Pos())
 	if r.depth == 0 && nst != nil {
 		r.callOrdinal++
@@ -26,6 +62,9 @@ func (r *FnRun) execCall(st *State, x *ssa.Call) *State {
 		r.calleeCount[cname]++
 		if r.c != nil {
 			for _, ma := range r.c.Asserts {
+				if ma.Before {
+					continue
+				}
 				if ma.Callee == "" && ma.N != r.callOrdinal {
 					continue
 				}
@@ -440,6 +479,11 @@ func (r *FnRun) appendTyped(st *State, s PSlice, cc *ssa.CallCommon, dst *ssa.Ca
 	np := tb.Fresh("app!"+r.fn.Name(), BV64)
 	r.addFact(tb.Ne(np, tb.BVI(64, 0)))
 	r.addFact(tb.ULt(np, tb.BVU(64, 1<<47)))
+	for _, kr := range r.root.knownRanges {
+		if kr[0] != s.Ptr {
+			r.addFact(tb.Not(tb.ULt(tb.Sub(np, kr[0]), kr[1])))
+		}
+	}
 	rp := tb.Ite(fits, s.Ptr, np)
 	// on reallocation the old elements are copied: per leaf array a quantified copy fact
 	pre := st.Clone()
